@@ -85,6 +85,13 @@ pub const INT_POOL: &[i64] = &[
     -256,
     7,
     8,
+    0x1_0000_0000,
+    0x1_0000_0001,
+    0x1_0000_0050,
+    -0x1_0000_0000,
+    0xffff,
+    0x1_0000,
+    1 << 62,
 ];
 
 pub const BYTES_POOL: &[&[u8]] = &[
@@ -131,7 +138,7 @@ pub fn ip_pool() -> Vec<IpAddr> {
 
 pub const KEY_POOL: &[&str] = &["", "a", "k", "key", "K", "ab", "b", "zz", "é", "a b", "q\"t", "b\\s"];
 
-const NAME_START: &[u8] = b"ghijklmopqrstuvwxyzn";
+const NAME_START: &[u8] = b"ghijklmopqrstuvwxyznabcdef";
 const NAME_REST: &[u8] = b"abcdefghijklmnopqrstuvwxyz0123456789_";
 
 pub fn gen_int(ch: &mut Choices<'_>, hints: &[i64]) -> i64 {
@@ -139,10 +146,13 @@ pub fn gen_int(ch: &mut Choices<'_>, hints: &[i64]) -> i64 {
         0 => *ch.pick(INT_POOL),
         1 => {
             let h = *ch.pick(hints);
-            match ch.draw(4) {
-                0 | 1 => h,
-                2 => h.wrapping_add(1),
-                _ => h.wrapping_sub(1),
+            match ch.draw(8) {
+                0..=3 => h,
+                4 => h.wrapping_add(1),
+                5 => h.wrapping_sub(1),
+                // same low bits, different high bits (truncation / narrow-storage slips)
+                6 => h.wrapping_add(1 << 32),
+                _ => h ^ *ch.pick(&[1i64 << 32, 1 << 31, 1 << 16, 1 << 33, i64::MIN]),
             }
         }
         2 => ch.draw(20) as i64 - 5,
@@ -155,7 +165,7 @@ pub fn gen_bytes(ch: &mut Choices<'_>, hints: &[Vec<u8>]) -> Vec<u8> {
         0 => ch.pick(BYTES_POOL).to_vec(),
         1 => {
             let h = ch.pick(hints).clone();
-            match ch.draw(6) {
+            match ch.draw(7) {
                 0 | 1 => h,
                 2 => {
                     let mut v = h;
@@ -168,6 +178,16 @@ pub fn gen_bytes(ch: &mut Choices<'_>, hints: &[Vec<u8>]) -> Vec<u8> {
                     v
                 }
                 4 => h.iter().map(|b| if b.is_ascii_alphabetic() { b ^ 0x20 } else { *b }).collect(),
+                5 if !h.is_empty() => {
+                    // the hint stretched across an internal size threshold (63..65, 255..257 bytes)
+                    let n = *ch.pick(&[63usize, 64, 65, 84, 127, 128, 255, 256, 257, 300]);
+                    let mut v = h.clone();
+                    while v.len() < n {
+                        let k = v.len();
+                        v.push(h[k % h.len()]);
+                    }
+                    v
+                }
                 _ => {
                     let mut v = h;
                     v.pop();
@@ -305,6 +325,11 @@ impl<'c, 'd> Gen<'c, 'd> {
                 for _ in 0..n {
                     s.push(*self.ch.pick(NAME_REST) as char);
                 }
+            }
+            // a name made only of hex digits (and dots) could be read as the start of
+            // a hex / IPv6 literal in argument position: give it a non-hex character
+            if !s.chars().any(|c| matches!(c, 'g'..='z' | '_')) {
+                s.push('_');
             }
             self.counter += 1;
             let bad = s.starts_with("not")
